@@ -156,7 +156,9 @@ func (f *localWrapper) Sync(schema proxyv1alpha1.FlowControlSchema) {
 	f.localConfig = schema
 
 	newType := flowcontrol.GuessFlowControlSchemaType(schema)
-	if f.FlowControl == nil || f.Type() != newType {
+	if f.FlowControl == nil {
+		// the limiter is created once: it is shared with the requests in flight
+		// and must never be replaced, see upstreamLimiter.syncLocalFlowControls
 		f.FlowControl = f.flowControlCache.newMeterFlowControl(schema)
 		klog.Infof("[local limiter] cluster=%q ensure flowcontrol schema %v id=%v", f.flowControlCache.cluster, f.String(), f.flowControlCache.clientID)
 		return
